@@ -148,6 +148,12 @@ impl TryFrom<&str> for OnionV3Address {
 			}
 		};
 
+		if address.len() < 32 {
+			return Err(OnionV3Error::AddressDecoding(
+				"(Interpreted as Base32 String) Provided onion V3 address is invalid (too short)"
+					.to_owned(),
+			));
+		}
 		let mut retval = OnionV3Address([0; 32]);
 		retval.0.copy_from_slice(&address[0..32]);
 
